@@ -180,6 +180,64 @@ Definition dr_cmp (a b : cfg) : comparison :=
 Definition sort_configs (l : list cfg) : list cfg := isort cfg_cmp l.
 Definition sort_destrules (l : list cfg) : list cfg := isort dr_cmp l.
 
+(* ------------------------------------------------------------------ call sites in PushContext init *)
+
+(* pilot/pkg/model/push_context.go initSidecarScopes: sortConfigByCreationTime, then one pass collecting the
+   Sidecars with a workload selector and one pass collecting those without ([c_sel] = WorkloadSelector != nil) *)
+Definition sidecar_partition (s : list cfg) : list cfg :=
+  filter c_sel s ++ filter (fun c => negb (c_sel c)) s.
+Definition sidecar_order (l : list cfg) : list cfg := sidecar_partition (sort_configs l).
+
+(* doGetSidecarScope for a SidecarProxy over the ordered list [o]: the first Sidecar of the proxy's namespace
+   that has no selector or whose selector matches the workload ([ms] = tags of the Sidecars whose selector is
+   a subset of the workload labels); otherwise meshRootSidecarConfig = the first selector-less Sidecar of the
+   root namespace; otherwise the default scope (None) *)
+Definition choose_in (proxy_ns root_ns : string) (ms : list N) (o : list cfg) : option N :=
+  match find (fun c => String.eqb (c_ns c) proxy_ns && (negb (c_sel c) || existsb (N.eqb (c_tag c)) ms)) o with
+  | Some c => Some (c_tag c)
+  | None => match find (fun c => String.eqb (c_ns c) root_ns && negb (c_sel c)) o with
+            | Some c => Some (c_tag c)
+            | None => None
+            end
+  end.
+Definition choose_sidecar (proxy_ns root_ns : string) (ms : list N) (l : list cfg) : option N :=
+  choose_in proxy_ns root_ns ms (sidecar_order l).
+
+(* GetAuthorizationPolicies / getTelemetries / initAuthenticationPolicies: sortConfigByCreationTime, then
+   append to a per-namespace slice in that order; lookups concatenate the slices of a list of namespaces *)
+Definition by_namespaces (nss : list string) (s : list cfg) : list cfg :=
+  flat_map (fun ns => filter (fun c => String.eqb (c_ns c) ns) s) nss.
+
+(* addPeerAuthentication: of the selector-less (namespace/mesh level) policies only the first of each
+   namespace is kept ([c_sel] = selector with at least one label) *)
+Fixpoint pa_keep (seen : list string) (s : list cfg) : list cfg :=
+  match s with
+  | [] => []
+  | c :: s' =>
+      if c_sel c then c :: pa_keep seen s'
+      else if existsb (String.eqb (c_ns c)) seen then pa_keep seen s'
+      else c :: pa_keep (c_ns c :: seen) s'
+  end.
+
+(* kind 1 AuthorizationPolicy, 2 Telemetry, 3 RequestAuthentication, 4 PeerAuthentication *)
+Definition callsite_in (kind : N) (nss : list string) (o : list cfg) : list cfg :=
+  by_namespaces nss (if N.eqb kind 4 then pa_keep [] o else o).
+Definition callsite_order (kind : N) (nss : list string) (l : list cfg) : list cfg :=
+  callsite_in kind nss (sort_configs l).
+
+(* PushContext.EnvoyFilters: sort.Slice over the matched filters of the root and the proxy namespace with
+   less = priority, then root namespace first (only when the namespaces differ and one is the root),
+   then creation time, then Name + "." + Namespace.  An element is (priority, config). *)
+Definition ef_less (root : string) (i j : Z * cfg) : bool :=
+  let ci := snd i in let cj := snd j in
+  if negb (Z.eqb (fst i) (fst j)) then Z.ltb (fst i) (fst j)
+  else if negb (String.eqb (c_ns ci) (c_ns cj)) && (String.eqb (c_ns ci) root || String.eqb (c_ns cj) root)
+       then String.eqb (c_ns ci) root
+  else if negb (Z.eqb (c_time ci) (c_time cj)) then Z.ltb (c_time ci) (c_time cj)
+  else String.ltb (c_name ci ++ "." ++ c_ns ci)%string (c_name cj ++ "." ++ c_ns cj)%string.
+Definition ef_cmp (root : string) : Z * cfg -> Z * cfg -> comparison := of_less (ef_less root).
+Definition sort_envoyfilters (root : string) (l : list (Z * cfg)) : list (Z * cfg) := isort (ef_cmp root) l.
+
 (* ------------------------------------------------------------------ shard keys, localities *)
 
 (* pilot/pkg/model/endpointshards.go Keys: sort.Slice with
